@@ -361,6 +361,9 @@ func report(w *out.W, cr caseResult, dbg, viol *os.File) {
 			w.Count(r.ErrClass)
 			if r.ErrClass == "refused-no-such-table" || r.ErrClass == "refused-other" || r.ErrClass == "refused-syntax" || r.ErrClass == "refused-schema-error" || r.ErrClass == "refused-no-such-column" {
 				fmt.Fprintf(dbg, "%s %s edits=%v: %s\n", id, r.ErrClass, c.Edits, r.ErrText)
+				if r.ErrClass == "refused-other" || r.ErrClass == "refused-syntax" {
+					fmt.Fprintf(dbg, "%s\n", caseText(c))
+				}
 			}
 		} else {
 			w.Count("applied")
